@@ -636,11 +636,6 @@ def execute(case: dict) -> dict:  # noqa: C901, PLR0915
             m.foreign_first.add((node, mdh))
         m.attested[node][mdh] = times + 1
         decisions.append(f"att:{verdict}")
-        if os.environ.get("C17_DEBUG"):
-            import traceback
-            traceback.print_stack(limit=12)
-            print("ATT", pkt.id, node, who, mdh.hex()[:8], verdict, times, "cause", pkt.cause, cause and (cause["msg"], cause["replay"], cause["bad"]),
-                  round(now - 1_700_000_000.0, 4), sorted(read_rows(node))[-1][3].hex()[:8] if read_rows(node) else None)
         if verdict != "ok":
             if verdict == "no_metadata" and any(mdh in d for (n2, _k), d in m.mds.items() if n2 == node):
                 verdict = "other_subject_key_metadata"
